@@ -45,9 +45,9 @@ impl<'a> WireFormat<'a> for NAPTR<'a> {
     where
         Self: Sized,
     {
-        let order = u16::from_be_bytes(data[*position..*position + 2].try_into()?);
+        let order = u16::from_be_bytes(data.get(*position..*position + 2).ok_or(crate::SimpleDnsError::InsufficientData)?.try_into()?);
         *position += 2;
-        let preference = u16::from_be_bytes(data[*position..*position + 2].try_into()?);
+        let preference = u16::from_be_bytes(data.get(*position..*position + 2).ok_or(crate::SimpleDnsError::InsufficientData)?.try_into()?);
         *position += 2;
         let flags = CharacterString::parse(data, position)?;
         let services = CharacterString::parse(data, position)?;
